@@ -33,6 +33,7 @@ type e8row struct {
 	pre     func(a *e8assign, names *e8names) bool // may be called with a partial assignment (use a.has)
 	lenEqOpaque bool
 	havoc   bool
+	rangeOnce bool
 	opaquePkg map[*types.Package]bool
 	opaque  map[*types.Func]bool
 	spec    func(a *e8assign, names *e8names, out *e8out) string
@@ -245,7 +246,7 @@ restart:
 		}()
 		// discovery
 		col := &e8collector{scalars: map[string]bool{}, bools: map[string]bool{}}
-		run(&e8interp{p: p, collect: col, lenEqOpaque: row.lenEqOpaque, opaque: row.opaque, havoc: row.havoc, opaquePkg: row.opaquePkg})
+		run(&e8interp{p: p, collect: col, lenEqOpaque: row.lenEqOpaque, opaque: row.opaque, havoc: row.havoc, opaquePkg: row.opaquePkg, rangeOnce: row.rangeOnce})
 		for _, a := range row.atoms {
 			col.scalars[a] = true
 		}
@@ -314,7 +315,7 @@ restart:
 				return
 			}
 			evaluated++
-			in := &e8interp{p: p, a: a, lenEqOpaque: row.lenEqOpaque, opaque: row.opaque, havoc: row.havoc, opaquePkg: row.opaquePkg}
+			in := &e8interp{p: p, a: a, lenEqOpaque: row.lenEqOpaque, opaque: row.opaque, havoc: row.havoc, opaquePkg: row.opaquePkg, rangeOnce: row.rangeOnce}
 			out := run(in)
 			if out != nil {
 				out.in = in
@@ -897,7 +898,17 @@ func (p *Program) e8Rows() map[string]*e8row {
 			var after []ast.Stmt
 			seen := false
 			for _, st := range fd.Body.List {
+				isNudge := false
 				if _, ok := st.(*ast.ForStmt); ok {
+					isNudge = true
+				}
+				// the nudge may also be a single statement `p.Y = helper(p.Y, …)`
+				if as, ok := st.(*ast.AssignStmt); ok && as.Tok == token.ASSIGN && len(as.Lhs) == 1 {
+					if sel, ok := as.Lhs[0].(*ast.SelectorExpr); ok && sel.Sel.Name == "Y" {
+						isNudge = true
+					}
+				}
+				if isNudge {
 					seen = true
 					after = nil
 					continue
